@@ -52,6 +52,12 @@ pub fn all() -> Vec<Kind> {
         Kind { name: "delete an RRset (class ANY)", class: "effective", build: |_| upd(vec![empty("a.z.", ru::T_A, ru::CLASS_ANY, 0)]) },
         Kind { name: "delete a name (class ANY, type ANY)", class: "effective", build: |_| upd(vec![empty("b.z.", ru::T_ANY, ru::CLASS_ANY, 0)]) },
         Kind { name: "replace the apex SOA (higher serial)", class: "effective", build: |c| upd(vec![soa("z.", 60, c.wrapping_add(2), 2)]) },
+        // ---- CNAME changes at names that exist (on a signed zone such a name also holds generated
+        // NSEC / RRSIG RRsets, which do not count as "other data")
+        Kind { name: "re-target an existing CNAME", class: "effective", build: |_| upd(vec![cname("b.z.", 60, "b.z.")]) },
+        Kind { name: "add a CNAME at a new name", class: "effective", build: |_| upd(vec![cname("a.a.z.", 60, "a.z.")]) },
+        Kind { name: "replace a host's A RRset by a CNAME in one message", class: "effective", build: |_| upd(vec![empty("a.z.", ru::T_A, ru::CLASS_ANY, 0), cname("a.z.", 60, "b.z.")]) },
+        Kind { name: "replace a CNAME by an A RR in one message", class: "effective", build: |_| upd(vec![empty("b.z.", ru::T_CNAME, ru::CLASS_ANY, 0), a("b.z.", 60, 1)]) },
         // ---- an ignored / skipped RR next to an effective one in the same message
         Kind { name: "ignored non-apex SOA add, then an effective add", class: "mixed", build: |c| upd(vec![soa("a.z.", 60, c.wrapping_add(1), 2), a("a.a.z.", 60, 2)]) },
         Kind { name: "effective add, then ignored non-apex SOA add", class: "mixed", build: |c| upd(vec![a("a.a.z.", 60, 2), soa("a.z.", 60, c.wrapping_add(1), 2)]) },
